@@ -17,7 +17,7 @@
 #define VF_PLEN 6
 #define VF_MAXSZ 31
 #define VF_EXTRASZ 256
-#define VF_INPUTS(X) X(unsigned char, fmt, ) X(int, pre, ) X(unsigned char, fail_at, ) X(unsigned char, mode, ) X(unsigned char, init, [N + 1]) \
+#define VF_INPUTS(X) X(int, fmt, ) X(int, pre, ) X(unsigned char, fail_at, ) X(unsigned char, mode, ) X(unsigned char, init, [N + 1]) \
     X(unsigned char, pp_ok, [VF_NPCALL]) X(unsigned char, pp_len, [VF_NPCALL]) X(unsigned char, pp_adv, [VF_NPCALL]) X(unsigned char, pp_txt, [VF_NPCALL][VF_PLEN])
 #include "vf.h"
 static void *hk_malloc(size_t n) { return vf_malloc(n); }
@@ -41,7 +41,7 @@ int main(VF_MAIN_ARGS)
     cJSON item; size_t L, k; int fmt;
     VF_INIT();
     memset(&item, 0, sizeof item); item.type = cJSON_NULL;
-    fmt = IN.fmt & 1; L = 1 + IN.pp_len[0] % VF_PLEN;
+    fmt = IN.fmt; L = 1 + IN.pp_len[0] % VF_PLEN;       /* any int: non-zero = formatted */
 #if HOOKS == 1
     { cJSON_Hooks h; h.malloc_fn = hk_malloc; h.free_fn = hk_free; cJSON_InitHooks(&h); }
 #elif HOOKS == 2
